@@ -5,6 +5,7 @@ sys.path.insert(0, os.path.dirname(os.path.abspath(__file__)))
 from vlib import *
 from gen import Gen
 import spec
+import c01
 
 ESC = ['%41', '%2F', '%2f', '%00', '%7E', '%C3%A9', '%c3%a9', '%E2%82%AC', '%F0%9F%98%80',            # well-formed
        '%80', '%BF', '%C3', '%E2%82', '%F0%9F%98', '%C0%AF', '%E0%80%AF', '%ED%A0%80', '%ED%BF%BF',       # lone continuation, truncated, overlong, surrogates
@@ -51,6 +52,28 @@ def main():
             if g.r.random() < 0.3 and p['query'] is not None: p['query'] += g.pick(ESC) + '?x=' + g.pick(ESC)
             kind = fam + ('' if p['scheme'] is not None and g.r.random() < 0.4 else 'ref')
             lines.append('refpct\t%s\t%s' % (kind, hexs(Gen.compose(p)))); meta.append(('refpct', fam, kind, Gen.compose(p).encode()))
+    # values that the validator OF THE CURRENT TREE accepts (walks through the translated automata, see C01), biased towards '%':
+    # "every valid component value" means every value the constructors let in
+    if c01.ensure_gendfa(R, cdir):
+        dfas = json.load(open(os.path.join(cdir, 'dfa.json')))
+        DN = {'segment': 'path_segment', 'userinfo': 'user_info', 'host': 'host', 'query': 'query', 'fragment': 'fragment'}
+        for fam in ('uri', 'iri'):
+            for comp, dn in DN.items():
+                d = dfas.get('%s_%s' % (fam, dn))
+                if d is None:
+                    continue
+                seen = set()
+                for b in c01.sample_strings(d, random.Random(rnd.random()), 900 if thorough else 250):
+                    try:
+                        t = b.decode('utf-8')
+                    except UnicodeDecodeError:
+                        continue
+                    tk = c01.tokens_of(d, b)
+                    if tk is None or not c01.dfa_run(d, tk) or t in seen or any(0xD800 <= ord(ch) <= 0xDFFF for ch in t):
+                        continue
+                    seen.add(t)
+                    if '%' in t or len(seen) % 4 == 0:
+                        lines.append('pct\t%s\t%s\t%s' % (fam, comp, hexs(t))); meta.append(('pct', fam, comp, t.encode()))
     impl = run_lines(harness, lines)
     plines = [l for l in lines if l.startswith('pct')]
     mod = dict(zip(plines, run_lines(model, plines)))
